@@ -330,6 +330,9 @@ func (it *Interp) evalCall(n *Node, ctx *Ctx) (*Ref, Value, bool) {
 	}
 	var thisValue Value = Undefined
 	if ref != nil {
+		if ref.unresolvable && it.argsFirst {
+			it.evalArguments(n.kidsFrom(1), ctx)
+		}
 		fv = it.getValue(ref)
 		if ref.isProperty() {
 			thisValue = ref.getThisValue()
